@@ -1244,7 +1244,14 @@ client_tunnel(int tun_fd, int dns_fd)
 
 		if (i == 0) {
 			/* timeout */
-			if (is_sending()) {
+			if (is_sending() && outchunktime + 1 > time(NULL)) {
+				/* Not the retransmit timeout but a short
+				   send_ping_soon one: the fragment went out
+				   less than a second ago and its ack may well
+				   be on its way. Ack the downstream data with
+				   a ping; this is not a failed attempt. */
+				send_ping(dns_fd);
+			} else if (is_sending()) {
 				/* Re-send current fragment; either frag
 				   or ack probably dropped somewhere.
 				   But problem: no cache-miss-counter,
